@@ -19,6 +19,7 @@ StrT == [t |-> "str"]
 OptT(x) == [t |-> "opt", of |-> x]
 VecT(x) == [t |-> "vec", of |-> x]
 Tup2T(x) == [t |-> "tup2", of |-> x]
+TupT(n, x) == [t |-> "tup", n |-> n, of |-> x]          \* tuples and fixed-size arrays of n elements: exactly n, never a prefix
 
 \* offset-binary limbs of the integer bounds
 L_I8 == <<32767, 16777215, 16777088>>   H_I8 == <<32768, 0, 127>>
@@ -48,6 +49,7 @@ Outcome(v, T) ==
          [] T.t = "opt"   -> IF IsNull(v) THEN "ok" ELSE Outcome(v, T.of)
          [] T.t = "vec"   -> IF v.k = "list" THEN And3([j \in 1..Len(v.v) |-> Outcome(v.v[j], T.of)]) ELSE "err"
          [] T.t = "tup2"  -> IF v.k = "list" /\ Len(v.v) = 2 THEN And3([j \in 1..2 |-> Outcome(v.v[j], T.of)]) ELSE "err"
+         [] T.t = "tup"   -> IF v.k = "list" /\ Len(v.v) = T.n THEN And3([j \in 1..T.n |-> Outcome(v.v[j], T.of)]) ELSE "err"
 
 \* is the decoded value d (as re-encoded by the harness) the same as v ?
 RECURSIVE SameDecoded(_, _)
